@@ -350,6 +350,82 @@ func correspond(in replayInput, stream, line string, before []tengo.Object, afte
 	}
 }
 
+// ---- probes of the candidate findings of this property (custom Importables only; see notes/C12.md) ----
+
+type errImportable struct{}
+
+func (errImportable) Import(string) (interface{}, error) {
+	return &tengo.Error{Value: tengo.TrueValue}, nil
+}
+
+type namedMapImportable struct{ v int64 }
+
+func (m namedMapImportable) Import(string) (interface{}, error) {
+	return &tengo.ImmutableMap{Value: map[string]tengo.Object{"__module_name__": &tengo.String{Value: "same"}, "v": &tengo.Int{Value: m.v}}}, nil
+}
+
+// ownProbes re-runs the two inputs. A failing probe is reported as a known-finding hit unless the known
+// file lists it as fixed (then it is a regression and a violation).
+func ownProbes(knownPath string) {
+	status := map[string]string{}
+	for _, k := range lib.LoadKnown(knownPath) {
+		if k.Property == "C12" {
+			status[k.ID] = k.Status
+		}
+	}
+	report := func(id, sig, input, observed, what string) {
+		res.Count("finding-probe", id, true)
+		if observed == "" {
+			return
+		}
+		if status[id] == "fixed" {
+			res.Violate(lib.Violation{Signature: sig, Stream: "finding-probe", Input: input, Observed: observed,
+				Expected: "transformed bytecode runs like the original", Oracle: what})
+			return
+		}
+		res.KnownHits = append(res.KnownHits, id)
+	}
+	mm := tengo.NewModuleMap()
+	mm.Add("e", errImportable{})
+	mm.Add("a", namedMapImportable{1})
+	mm.Add("b", namedMapImportable{2})
+	run := func(src string, transform func(*tengo.Bytecode) *tengo.Bytecode) (string, string) {
+		c, err := lib.CompileSource([]byte(src), lib.CompileOpts{Modules: mm})
+		if err != nil {
+			return "", ""
+		}
+		want := lib.RunBytecode(c, lib.RunOpts{}).String()
+		c2, _ := lib.CompileSource([]byte(src), lib.CompileOpts{Modules: mm})
+		bc := transform(c2.BC)
+		if bc == nil {
+			return want, "transformation failed"
+		}
+		return want, lib.RunBytecode(&lib.Compiled{BC: bc, Symbols: c.Symbols}, lib.RunOpts{}).String()
+	}
+	src1 := "r := import(\"e\").value == true\n"
+	want, got := run(src1, func(bc *tengo.Bytecode) *tengo.Bytecode {
+		out, err := gobRoundTrip(bc, mm)
+		if err != nil {
+			return nil
+		}
+		return out
+	})
+	obs := ""
+	if want != got {
+		obs = got + " (original: " + want + ")"
+	}
+	report("C12-F1", "gob-fix-skips-singletons-inside-error-values", "custom Importable returning &Error{Value: TrueValue}; "+src1, obs,
+		"fixDecodedObject has no *Error arm: a Bool/Undefined inside an error constant is not the shared value after Decode")
+	src2 := "x := import(\"a\").v\ny := import(\"b\").v\n"
+	want, got = run(src2, func(bc *tengo.Bytecode) *tengo.Bytecode { bc.RemoveDuplicates(); return bc })
+	obs = ""
+	if want != got {
+		obs = got + " (original: " + want + ")"
+	}
+	report("C12-F2", "dedup-merges-distinct-maps-with-equal-module-name", "two custom Importables returning different immutable maps with the same __module_name__; "+src2, obs,
+		"RemoveDuplicates keys *ImmutableMap constants by __module_name__ only")
+}
+
 // ---- programs ----
 
 func compile(in replayInput) (*lib.Compiled, error) {
@@ -822,6 +898,7 @@ func main() {
 		return
 	}
 	lib.RunProbes(res, "C12", f.Known)
+	ownProbes(f.Known)
 	for _, in := range corpus() {
 		checkProgram(in)
 	}
